@@ -90,12 +90,16 @@ def live_option_vector(with_events=True, with_drm=True):
 PHI = ["zero", "1us", "1tick", "half", "end-1us", "uniform"]
 
 
-def live_clock():
-    """Phase-controlled clock description; resolved to an instant by resolve_clock()."""
+def live_clock(ancient: bool = False):
+    """Phase-controlled clock description; resolved to an instant by resolve_clock().
+    ancient=True also draws days back to year 1 (the start option accepts any ISO date-time; years below 1000 need
+    zero padding to stay lexically valid xs:dateTime values)."""
     loops = st.one_of(st.integers(0, 3), st.integers(0, 200), st.integers(0, 10**5), st.integers(10**5, 10**7))
     return st.fixed_dictionaries({
         "start": st.sampled_from(["explicit", "explicit", "epoch", "today", "month", "year", "now", "default"]),
-        "base_day": st.integers(366, 47000),        # days after 1970-01-01 (1971 .. 2098)
+        "base_day": (st.one_of(st.integers(366, 47000), st.integers(366, 47000), st.integers(366, 47000),
+                               st.integers(-719000, -354300), st.integers(-354300, 365)) if ancient
+                     else st.integers(366, 47000)),        # days after 1970-01-01 (1971 .. 2098)
         "base_sec": st.one_of(st.just(0), st.integers(0, 86399)),
         "offset_min": st.one_of(st.just(0), st.just(0), st.integers(-14 * 60, 14 * 60)),
         "loops": loops,
